@@ -3,6 +3,8 @@ import NTV.Proofs.Lemmas.TrialProofs
 import NTV.Proofs.C02
 import NTV.Proofs.Lemmas.Round2ProofsG
 import NTV.Proofs.Lemmas.Round2RingP
+import NTV.Proofs.Lemmas.FieldDiscE
+import Mathlib.Algebra.Polynomial.SpecificDegree
 /-! # C06 — integral basis (Round 2).
 Proved for all inputs (f canonical): the result is a full-rank module containing the starting order and 1 with
 disc = disc(start)/index² (`result_contains_start`), it is CLOSED UNDER MULTIPLICATION (`result_is_ring`), every
@@ -490,5 +492,167 @@ example : ∃ R : Matrix (Fin 2) (Fin 2) ℤ,
 
 
 end Round2Ring
+
+/-! ## The discriminant of the result is the FIELD discriminant
+
+`K_f = AdjoinRoot (modulus f) = ℚ[X]/(f)` (`modulus f` is `f` as a rational polynomial), a number field when `f` is
+irreducible over ℚ. For `f` canonical and irreducible, the ℤ-span of the rows of the returned basis (as elements of
+`K_f`) is the integral closure of ℤ in `K_f` (`order_is_integral_closure`), so the value returned by
+`Order::discriminant` on it is Mathlib's `NumberField.discr K_f` (`discriminant_is_field_discriminant`); hence two
+polynomials defining the same field (a ℚ-algebra isomorphism `K_f ≃ K_g`) give the same discriminant
+(`discriminant_is_field_invariant`), in particular for the changes of generator θ + k, −θ, c·θ
+(`discriminant_affine_invariant`, `discriminant_shift_invariant`) and 1/θ (`discriminant_reciprocal_invariant`).
+Lemmas: `Lemmas/FieldDiscA.lean` – `FieldDiscE.lean`. -/
+section FieldDiscriminant
+open Polynomial
+open NTV.Ord NTV.Round2 NTV.PolyG
+open NTV.Alg (modulus)
+
+/-- **the result of `find_integral_basis` is the ring of integers.** For `f` canonical and irreducible over ℚ, an
+element of `ℚ[X]/(f)` is integral over ℤ iff it is an integer combination of the rows of the returned basis
+(row `i` is the class of the polynomial with coefficient list `O[i]`). -/
+theorem order_is_integral_closure (f : List Int) (hf : Canon f) (hirr : Irreducible (modulus f)) (O : Order)
+    (H : findIntegralBasis f = .ok O) (x : AdjoinRoot (modulus f)) :
+    x ∈ integralClosure ℤ (AdjoinRoot (modulus f)) ↔
+      x ∈ Submodule.span ℤ (Set.range
+        (fun i : Fin (degU f) => AdjoinRoot.mk (modulus f) (toPoly (O.getD i [])))) :=
+  NTV.FieldDisc.findIntegralBasis_integral_iff f hf hirr O H x
+
+/-- **its discriminant is the field discriminant**: the value `Order::discriminant` returns on the result of
+`find_integral_basis` is the absolute discriminant `NumberField.discr` of the number field `ℚ[X]/(f)`. -/
+theorem discriminant_is_field_discriminant (f : List Int) (hf : Canon f) [Fact (Irreducible (modulus f))]
+    (O : Order) (H : findIntegralBasis f = .ok O) (d : ℤ) (hd : discriminantOrd O f = .ok d) :
+    d = @NumberField.discr (AdjoinRoot (modulus f)) _ (NTV.FieldDisc.numberField_adjoinRoot (modulus f)) :=
+  NTV.FieldDisc.findIntegralBasis_discr f hf O H d hd
+
+/-- **the discriminant depends only on the field**: if `f` and `g` (canonical, irreducible over ℚ) define the same
+field — there is a ℚ-algebra isomorphism `ℚ[X]/(f) ≃ ℚ[X]/(g)` — then the discriminants of the two computed orders
+are equal. -/
+theorem discriminant_is_field_invariant (f g : List Int) (hf : Canon f) (hg : Canon g)
+    (hif : Irreducible (modulus f)) (hig : Irreducible (modulus g))
+    (e : AdjoinRoot (modulus f) ≃ₐ[ℚ] AdjoinRoot (modulus g))
+    (O O' : Order) (H : findIntegralBasis f = .ok O) (H' : findIntegralBasis g = .ok O')
+    (d d' : ℤ) (hd : discriminantOrd O f = .ok d) (hd' : discriminantOrd O' g = .ok d') : d = d' :=
+  NTV.FieldDisc.findIntegralBasis_discr_invariant f g hf hg hif hig e O O' H H' d d' hd hd'
+
+/-- generator `θ' = c·θ + k` (θ + k: c = u = 1; −θ: c = −1, u = ±1; c·θ: k = 0, u = cⁿ): if
+`g(c·X + k) = u·f(X)` with `c, u ≠ 0`, `f` irreducible, then `g` is irreducible and the discriminants agree. -/
+theorem discriminant_affine_invariant (f g : List Int) (hf : Canon f) (hg : Canon g)
+    (hif : Irreducible (modulus f)) (c k u : ℤ) (hc : c ≠ 0) (hu : u ≠ 0)
+    (h : (toPoly g).comp (C c * X + C k) = C u * toPoly f)
+    (O O' : Order) (H : findIntegralBasis f = .ok O) (H' : findIntegralBasis g = .ok O')
+    (d d' : ℤ) (hd : discriminantOrd O f = .ok d) (hd' : discriminantOrd O' g = .ok d') :
+    Irreducible (modulus g) ∧ d = d' :=
+  NTV.FieldDisc.findIntegralBasis_discr_affine f g hf hg hif c k u hc hu h O O' H H' d d' hd hd'
+
+/-- generator `θ + k`: `g(X + k) = f(X)` -/
+theorem discriminant_shift_invariant (f g : List Int) (hf : Canon f) (hg : Canon g)
+    (hif : Irreducible (modulus f)) (k : ℤ) (h : (toPoly g).comp (X + C k) = toPoly f)
+    (O O' : Order) (H : findIntegralBasis f = .ok O) (H' : findIntegralBasis g = .ok O')
+    (d d' : ℤ) (hd : discriminantOrd O f = .ok d) (hd' : discriminantOrd O' g = .ok d') : d = d' :=
+  (discriminant_affine_invariant f g hf hg hif 1 k 1 one_ne_zero one_ne_zero (by simpa using h)
+    O O' H H' d d' hd hd').2
+
+/-- generator `−θ`: `g(−X) = u·f(X)` (u = ±1) -/
+theorem discriminant_neg_invariant (f g : List Int) (hf : Canon f) (hg : Canon g)
+    (hif : Irreducible (modulus f)) (u : ℤ) (hu : u ≠ 0) (h : (toPoly g).comp (-X) = C u * toPoly f)
+    (O O' : Order) (H : findIntegralBasis f = .ok O) (H' : findIntegralBasis g = .ok O')
+    (d d' : ℤ) (hd : discriminantOrd O f = .ok d) (hd' : discriminantOrd O' g = .ok d') : d = d' :=
+  (discriminant_affine_invariant f g hf hg hif (-1) 0 u (by norm_num) hu (by simpa using h)
+    O O' H H' d d' hd hd').2
+
+/-- generator `c·θ`: `g(c·X) = u·f(X)` (c ≠ 0, u = cⁿ for monic f, g) -/
+theorem discriminant_scale_invariant (f g : List Int) (hf : Canon f) (hg : Canon g)
+    (hif : Irreducible (modulus f)) (c u : ℤ) (hc : c ≠ 0) (hu : u ≠ 0)
+    (h : (toPoly g).comp (C c * X) = C u * toPoly f)
+    (O O' : Order) (H : findIntegralBasis f = .ok O) (H' : findIntegralBasis g = .ok O')
+    (d d' : ℤ) (hd : discriminantOrd O f = .ok d) (hd' : discriminantOrd O' g = .ok d') : d = d' :=
+  (discriminant_affine_invariant f g hf hg hif c 0 u hc hu (by simpa using h) O O' H H' d d' hd hd').2
+
+/-- generator `1/θ`: `g = u·Xⁿ·f(1/X)` (the coefficients reversed, `u ≠ 0`; `f(0) ≠ 0` so that θ ≠ 0) -/
+theorem discriminant_reciprocal_invariant (f g : List Int) (hf : Canon f) (hg : Canon g)
+    (hif : Irreducible (modulus f)) (hig : Irreducible (modulus g)) (u : ℤ) (hu : u ≠ 0)
+    (h0 : (toPoly f).coeff 0 ≠ 0) (h : toPoly g = C u * (toPoly f).reverse)
+    (O O' : Order) (H : findIntegralBasis f = .ok O) (H' : findIntegralBasis g = .ok O')
+    (d d' : ℤ) (hd : discriminantOrd O f = .ok d) (hd' : discriminantOrd O' g = .ok d') : d = d' :=
+  NTV.FieldDisc.findIntegralBasis_discr_reciprocal f g hf hg hif hig u hu h0 h O O' H H' d d' hd hd'
+
+/-! ### non-vacuity: ℚ(√−3) through x² + 3 (θ), x² − 2x + 4 (θ + 1), x² + 12 (2θ), 3x² + 1 (1/θ); the four computed
+orders differ but all have discriminant −3 -/
+
+theorem x2p3_irreducible : Irreducible (modulus [3, 0, 1]) := by
+  have hm : modulus [3, 0, 1] = Polynomial.X ^ 2 + Polynomial.C 3 := by
+    simp [NTV.Alg.modulus, NTV.Alg.intsToRats, NTV.PolyG.toPoly]; ring
+  rw [hm]
+  apply Polynomial.irreducible_of_degree_le_three_of_not_isRoot
+  · rw [Polynomial.natDegree_X_pow_add_C]; decide
+  · intro x hx
+    simp only [Polynomial.IsRoot, Polynomial.eval_add, Polynomial.eval_pow, Polynomial.eval_X,
+      Polynomial.eval_C] at hx
+    nlinarith [sq_nonneg x]
+
+example : findIntegralBasis [3, 0, 1] = .ok [[1, 0], [1/2, 1/2]] ∧
+    discriminantOrd [[1, 0], [1/2, 1/2]] [3, 0, 1] = .ok (-3) ∧
+    findIntegralBasis [4, -2, 1] = .ok [[1, 0], [0, 1/2]] ∧
+    discriminantOrd [[1, 0], [0, 1/2]] [4, -2, 1] = .ok (-3) ∧
+    findIntegralBasis [12, 0, 1] = .ok [[1, 0], [1/2, 1/4]] ∧
+    discriminantOrd [[1, 0], [1/2, 1/4]] [12, 0, 1] = .ok (-3) ∧
+    findIntegralBasis [1, 0, 3] = .ok [[1, 0], [1/2, 3/2]] ∧
+    discriminantOrd [[1, 0], [1/2, 3/2]] [1, 0, 3] = .ok (-3) := by decide +kernel
+
+/-- the hypotheses of `discriminant_shift_invariant` hold for x² + 3 and x² − 2x + 4 = (x − 1)² + 3 -/
+example : (-3 : ℤ) = -3 :=
+  discriminant_shift_invariant [3, 0, 1] [4, -2, 1] (by intro _; simp) (by intro _; simp) x2p3_irreducible 1
+    (by simp [NTV.PolyG.toPoly]; ring) _ _ (by decide +kernel : findIntegralBasis [3, 0, 1] = .ok [[1, 0], [1/2, 1/2]])
+    (by decide +kernel : findIntegralBasis [4, -2, 1] = .ok [[1, 0], [0, 1/2]]) _ _
+    (by decide +kernel : discriminantOrd [[1, 0], [1/2, 1/2]] [3, 0, 1] = .ok (-3))
+    (by decide +kernel : discriminantOrd [[1, 0], [0, 1/2]] [4, -2, 1] = .ok (-3))
+
+/-- … of `discriminant_scale_invariant` for x² + 3 and x² + 12 (generator 2θ, g(2X) = 4·f(X)) -/
+example : Irreducible (modulus [12, 0, 1]) ∧ (-3 : ℤ) = -3 :=
+  discriminant_affine_invariant [3, 0, 1] [12, 0, 1] (by intro _; simp) (by intro _; simp) x2p3_irreducible 2 0 4
+    (by norm_num) (by norm_num) (by simp [NTV.PolyG.toPoly]; ring) _ _
+    (by decide +kernel : findIntegralBasis [3, 0, 1] = .ok [[1, 0], [1/2, 1/2]])
+    (by decide +kernel : findIntegralBasis [12, 0, 1] = .ok [[1, 0], [1/2, 1/4]]) _ _
+    (by decide +kernel : discriminantOrd [[1, 0], [1/2, 1/2]] [3, 0, 1] = .ok (-3))
+    (by decide +kernel : discriminantOrd [[1, 0], [1/2, 1/4]] [12, 0, 1] = .ok (-3))
+
+/-- … of `discriminant_reciprocal_invariant` for x² + 3 and 3x² + 1 (generator 1/θ) -/
+theorem x2p3rev_irreducible : Irreducible (modulus [1, 0, 3]) := by
+  have hm : modulus [1, 0, 3] = Polynomial.C 3 * Polynomial.X ^ 2 + Polynomial.C 1 := by
+    simp [NTV.Alg.modulus, NTV.Alg.intsToRats, NTV.PolyG.toPoly]; ring
+  rw [hm]
+  have hd : (Polynomial.C 3 * Polynomial.X ^ 2 + Polynomial.C 1 : ℚ[X]).natDegree = 2 := by compute_degree!
+  apply Polynomial.irreducible_of_degree_le_three_of_not_isRoot
+  · rw [hd]; decide
+  · intro x hx
+    simp only [Polynomial.IsRoot, Polynomial.eval_add, Polynomial.eval_mul, Polynomial.eval_pow,
+      Polynomial.eval_X, Polynomial.eval_C] at hx
+    nlinarith [sq_nonneg x]
+
+theorem x2p3_reverse : toPoly ([1, 0, 3] : List ℤ) = C 1 * (toPoly ([3, 0, 1] : List ℤ)).reverse := by
+  have h1 : toPoly ([3, 0, 1] : List ℤ) = X ^ 2 + C 3 := by simp [NTV.PolyG.toPoly]; ring
+  have h2 : toPoly ([1, 0, 3] : List ℤ) = C 3 * X ^ 2 + 1 := by simp [NTV.PolyG.toPoly]; ring
+  have hd : (X ^ 2 + C 3 : ℤ[X]).natDegree = 2 := by compute_degree!
+  rw [h1, h2, reverse, hd, reflect_add, reflect_C, reflect_monomial]
+  rw [revAt_le (by norm_num)]; simp; ring
+
+example : (-3 : ℤ) = -3 :=
+  discriminant_reciprocal_invariant [3, 0, 1] [1, 0, 3] (by intro _; simp) (by intro _; simp) x2p3_irreducible
+    x2p3rev_irreducible 1 one_ne_zero (by simp [NTV.PolyG.toPoly]) x2p3_reverse _ _
+    (by decide +kernel : findIntegralBasis [3, 0, 1] = .ok [[1, 0], [1/2, 1/2]])
+    (by decide +kernel : findIntegralBasis [1, 0, 3] = .ok [[1, 0], [1/2, 3/2]]) _ _
+    (by decide +kernel : discriminantOrd [[1, 0], [1/2, 1/2]] [3, 0, 1] = .ok (-3))
+    (by decide +kernel : discriminantOrd [[1, 0], [1/2, 3/2]] [1, 0, 3] = .ok (-3))
+
+/-- … and the field discriminant of ℚ(√−3) is −3, through the model -/
+example : @NumberField.discr (AdjoinRoot (modulus [3, 0, 1])) (@AdjoinRoot.instField _ _ _ ⟨x2p3_irreducible⟩)
+    (@NTV.FieldDisc.numberField_adjoinRoot (modulus [3, 0, 1]) ⟨x2p3_irreducible⟩) = -3 :=
+  haveI : Fact (Irreducible (modulus [3, 0, 1])) := ⟨x2p3_irreducible⟩
+  (discriminant_is_field_discriminant [3, 0, 1] (by intro _; simp) _
+    (by decide +kernel : findIntegralBasis [3, 0, 1] = .ok [[1, 0], [1/2, 1/2]]) (-3)
+    (by decide +kernel : discriminantOrd [[1, 0], [1/2, 1/2]] [3, 0, 1] = .ok (-3))).symm
+
+end FieldDiscriminant
 
 end NTV.C06
